@@ -13,12 +13,12 @@ import (
 
 // classification of the step, computed once
 type stepInfo struct {
-	respond     *types.MsgRespondService // accepted respond
-	respReq     types.CompactRequest
-	respCtx     types.RequestContext
-	respGood    bool // output absent or well-formed
-	modSvcCall  *types.MsgCallService // accepted call of the module service
-	withdraw    *types.MsgWithdrawEarnedFees
+	respond    *types.MsgRespondService // accepted respond
+	respReq    types.CompactRequest
+	respCtx    types.RequestContext
+	respGood   bool                  // output absent or well-formed
+	modSvcCall *types.MsgCallService // accepted call of the module service
+	withdraw   *types.MsgWithdrawEarnedFees
 }
 
 func (sc *StepCtx) info() stepInfo {
